@@ -55,8 +55,16 @@ def relabel(items, counter=None):
         elif it[0] == 'Math':
             out.append(('Math', it[1], relabel(it[2], counter)))
         elif it[0] in ('Call', 'Env'):
-            vals = tuple((v[:-1] + (relabel(v[-1], counter),)) if (isinstance(v, tuple) and v and v[0] in ('grp', 'opt', 'del')) else v
-                         for v in it[2])
+            vals = []
+            for v in it[2]:
+                if isinstance(v, tuple) and v and v[0] in ('grp', 'opt', 'del'):
+                    vals.append(v[:-1] + (relabel(v[-1], counter),))
+                elif isinstance(v, tuple) and v and v[0] == 'tok':
+                    vals.append(('tok', 'abcdfghijk'[counter[0] % 10]))
+                    counter[0] += 1
+                else:
+                    vals.append(v)
+            vals = tuple(vals)
             if it[0] == 'Call':
                 out.append(('Call', it[1], vals))
             else:
@@ -88,14 +96,14 @@ def plan(tier):
               ' x 32 option sets (4 strict_latex_spaces x 4 math_mode x keep_braced_groups): latex_to_text(strict parse) == reference '
               'renderer, exactly; composition: all ordered pairs of self-contained blocks (derivations of size <= 2 that begin and end '
               'with text) joined by a paragraph break / a space under every option set; adjacency family: bare symbol macro, one single-item construct, text, '
-              'at top level / in a group / in each formula form, with one whitespace deviation at every boundary.  one evaluation = one document under all option sets; '
+              'at top level / in a group / in each formula form, with one whitespace deviation at every boundary; the same call twice with different texts.  one evaluation = one document under all option sets; '
               'non-trivial = documents containing a macro, specials, comment, environment or formula.'),
         assumptions=['the reference renderer works on the parsed tree: C03 presupposes C01/C02 (tree is the written structure)',
                      'symbol / accent / specials tables for the ~25 names used are transcribed from the documentation, not imported'],
     )
 
 
-def check_doc(doc, acc, sub='docs'):
+def check_doc(doc, acc, sub='docs', fresh=False):
     case = dict(s=doc.text, items=repr(doc.items), devs={str(k): v for k, v in doc.devs.items()})
     acc.count('evaluations')
     st, res = run_guarded(contexts.parse, doc.text, 'C', False)
@@ -105,7 +113,8 @@ def check_doc(doc, acc, sub='docs'):
     nodes = res[1]
     if any(e[0] != 'c' for e in doc.skel):
         acc.count('nontrivial')
-    for o in OPTS:
+    from pylatexenc.latex2text import LatexNodes2Text
+    for o in (OPTS[::5] if fresh else OPTS):
         r = ref.Ref(strict_latex_spaces=o[0], math_mode=o[1], keep_braced_groups=o[2])
         try:
             exp = r.nodes(nodes)
@@ -114,7 +123,11 @@ def check_doc(doc, acc, sub='docs'):
             return
         # latex_to_text(s) is documented as parse + nodelist_to_text(nodes): the entry point itself is used for
         # every 5th option set, the parsed tree (one parse per document) for the others
-        if OPTS.index(o) % 5 == 0:
+        if fresh:
+            # a converter object of its own for this document: whatever it remembers comes from this document
+            conv = LatexNodes2Text(strict_latex_spaces=o[0], math_mode=o[1], keep_braced_groups=o[2])
+            st, got = run_guarded(conv.latex_to_text, doc.text, tolerant_parsing=False)
+        elif OPTS.index(o) % 5 == 0:
             st, got = run_guarded(l2t_obj(o).latex_to_text, doc.text, tolerant_parsing=False)
         else:
             st, got = run_guarded(l2t_obj(o).nodelist_to_text, nodes)
@@ -202,10 +215,31 @@ def iter_adjacency(k):
                                 yield d
 
 
+def iter_twice():
+    """The same call / symbol / accent twice in one document with different texts (a rendering that remembers
+    the first occurrence would show), at top level, in a group and in each formula form."""
+    g = docgen.Grammar('C', cmax=1)
+    singles = [it for it in g.items(1, False, False, False, False) if it[0] in ('Call', 'Acc', 'Sym') and 'tok' in repr(it)]
+    singles += [it for it in g.items(2, False, False, False, False) if it[0] in ('Call', 'Env') and "'T'" in repr(it)]
+    for it in singles:
+        for sep in ((), (('T', 'a'),), (('Par',),)):
+            inner = relabel((it,) + sep + (it,))
+            for wrap in (None, '$', 'G'):
+                if wrap in ('$', '$$') and (any(x[0] == 'Par' for x in sep) or it[0] == 'Env'):
+                    continue
+                items = inner if wrap is None else ((('G', inner),) if wrap == 'G' else (('Math', wrap, inner),))
+                d = docgen.render(items, 'C')
+                if d.valid:
+                    yield d
+
+
 def run_shard(shard, tier, acc):
     if shard[0] == 'adj':
         for doc in iter_adjacency(shard[1]):
             check_doc(doc, acc, 'adj')
+        if shard[1] == 0:
+            for doc in iter_twice():
+                check_doc(doc, acc, 'twice', fresh=True)
         return
     if shard[0] == 'docs':
         for doc in iter_docs(tier, shard[1]):
@@ -228,7 +262,7 @@ def replay(sub, case):
     items = eval(case['items'], {'__builtins__': {}}, {})
     devs = {int(k): v for k, v in case.get('devs', {}).items()}
     doc = docgen.render(items, 'C', devs)
-    check_doc(doc, acc, sub)
+    check_doc(doc, acc, sub, fresh=(sub == 'twice'))
     return acc.violations
 
 
